@@ -45,8 +45,8 @@ def header_modes(calls, ctor_flag, password="pw"):
     def harness(e):
         seen.clear()
         st.pop("compressors", None)
-        z, fp = S.new_archive(e, header_mode="encoded", password=password)
-        z.attrs["header_encryption"] = ctor_flag
+        # the flag goes through the real constructor (header_mode 'encrypted' = header_encryption=True)
+        z, fp = S.new_archive(e, header_mode=("encrypted" if ctor_flag else "encoded"), password=password)
         for c in calls:
             if c in "Ee":
                 e.method(z, "set_encrypted_header", c == "E")
